@@ -13,7 +13,9 @@
 (* library issued during the call with their results.                                      *)
 (*                                                                                         *)
 (* Judged (names of failed conditions go to `bad`, the rest of that run is skipped):       *)
-(*   WSAckComplete   Close = OK  =>  the sink holds a complete file of the history         *)
+(*   WSAckComplete   Close = OK  =>  the sink holds a complete file: the bytes of the      *)
+(*                   fault-free run, or a file the reference reader maps to exactly the   *)
+(*                   rows acknowledged by OK write_batch calls                             *)
 (*   WSFailReported  the sink failed  =>  some call, at the latest Close, returned non-OK  *)
 (*   WSAbortClean    Abort => no file left behind (path writers), no descriptor leaked     *)
 (*   Prefix          a prefix that an open path accepts must be a complete Parquet file    *)
@@ -22,9 +24,11 @@
 (* Not judged but reported (stats): agreement of the logged stream operations with the     *)
 (* Sink.tla model ("drift").                                                               *)
 EXTENDS WriterSink, ParquetFile, TLC, Json, IOUtils
-VARIABLES l, skip, bad, stats, ref, run
+VARIABLES l, skip, bad, stats, ref, run, ack
+\* ack: per column, the concatenated [defs, vals] of every write_batch call that returned OK in this
+\*      run (the rows the writer has acknowledged), whatever happened to other calls
 Tr == ndJsonDeserialize(IOEnv.TRACE)
-tvars == <<wst, schema, cur, done, sink, impl, l, skip, bad, stats, ref, run>>
+tvars == <<wst, schema, cur, done, sink, impl, l, skip, bad, stats, ref, run, ack>>
 
 Ev == Tr[l]
 Has(f) == f \in DOMAIN Ev
@@ -50,19 +54,20 @@ OpStep(a, o) ==
             ELSE [a EXCEPT !.tracked = FALSE, !.drift = @ + 1]
 Track(ops) == FoldLeft(OpStep, [s |-> sink, tracked |-> run.tracked, drift |-> 0, n |-> 0], ops)
 
-\* ---- "a complete file of the history"
-TableMatches(t) ==
-    LET ng == SelectSeq(t, LAMBDA g : g.numRows > 0)
-        want == Flushed
-    IN /\ Len(ng) = Len(want)
-       /\ \A g \in 1..Len(ng) :
-             /\ ng[g].numRows = Rows(want[g][1])
-             /\ \A c \in 1..NCols : /\ ng[g].cols[c].defs = want[g][c].defs
-                                    /\ ng[g].cols[c].vals = want[g][c].vals
-FileOk(bs) == LET f == ParseFile(bs) IN f.ok /\ TableMatches(TableOf(f))
-\* the bytes of the fault-free run of the same history, or (history still fully promised)
-\* any byte string the reference reader maps to the promised table
-IsComplete(bs) == bs = ref \/ (wst = "open" /\ CanClose /\ FileOk(bs))
+\* ---- "all bytes reached the sink": the sink holds a complete file
+\* Either the bytes of the fault-free run of the same history, or a byte string the reference
+\* reader accepts as a Parquet file whose content (row groups concatenated per column) is exactly
+\* the acknowledged rows.  (A call that reported failure promised nothing: its rows may be absent;
+\* rows acknowledged by an OK call must be there.)  "undecided": page bodies the TLA+ reader cannot
+\* decode (GZIP, ZSTD).
+FlatCol(t, c) == [defs |-> Flatten([g \in 1..Len(t) |-> t[g].cols[c].defs]),
+                  vals |-> Flatten([g \in 1..Len(t) |-> t[g].cols[c].vals])]
+Completeness(bs) ==
+    IF bs = ref THEN "yes"
+    ELSE LET f == ParseFile(bs)
+         IN IF ~f.ok THEN (IF f.why = "codec-not-modelled" THEN "undecided" ELSE "no")
+            ELSE IF Len(f.leaves) = NCols /\ \A c \in 1..NCols : FlatCol(TableOf(f), c) = ack[c] THEN "yes" ELSE "no"
+CompleteWhy(bs) == IF bs = ref THEN "" ELSE LET f == ParseFile(bs) IN IF f.ok THEN "parses-but-table-differs-from-acknowledged-rows" ELSE f.why
 
 \* ---- prefixes: v[k+1] is the verdict for cut k: 0 = NULL returned but no error code set,
 \*      1..8999 = rejected with that code, 9001 = opened, 9002 = crash/hang, 9003 = rejected but
@@ -88,7 +93,7 @@ PrefixVerdict ==
         \cup (IF undecided # {} THEN {"prefix:undecided"} ELSE {})
 PrefixDetail ==
     LET v == Ev.v
-        firstOf(S) == IF S = {} THEN "-" ELSE ToString(CHOOSE k \in S : \A j \in S : k <= j)
+        firstOf(Q) == IF Q = {} THEN "-" ELSE ToString(CHOOSE k \in Q : \A j \in Q : k <= j)
         op == Ev.opened
     IN "mode=" \o Ev.mode \o " first-bad-cut=" \o firstOf({k - 1 : k \in {j \in 1..Len(v) : v[j] \in {0, 9002, 9003, 9004}}})
        \o " opened=" \o ToString([i \in 1..Len(op) |-> [cut |-> op[i].cut, rows |-> op[i].rows, why |-> PrefixWhy(op[i].cut)]])
@@ -100,7 +105,7 @@ CloseVerdict ==
     LET closeOk == Ev.st = 0
         fo == run.failedOps \cup FailedKinds(EvOps)
         anyErr == impl.anyErr \/ ~closeOk
-        ackBad == ~WSAckComplete(closeOk, IsComplete(Ev.bytes))
+        ackBad == closeOk /\ ~WSAckComplete(closeOk, Completeness(Ev.bytes) # "no")
         repBad == ~WSFailReported(Ev.sf, anyErr)
     IN IF run.refRun THEN (IF closeOk THEN {} ELSE {"ref:close-failed"})
        ELSE CallVerdict(CanClose, "close-not-enabled")
@@ -112,7 +117,7 @@ CloseDetail ==
     LET anyErr == impl.anyErr \/ Ev.st # 0
     IN "accepted=" \o ToString(Ev.acc) \o " of " \o ToString(Len(ref))
        \o (IF ~WSFailReported(Ev.sf, anyErr) THEN " fail-reported:violated" ELSE " fail-reported:ok")
-       \o (IF ~WSAckComplete(Ev.st = 0, Ev.bytes = ref) THEN " ack-complete:violated" ELSE " ack-complete:ok")
+       \o (IF Ev.st = 0 /\ Completeness(Ev.bytes) = "no" THEN " ack-complete:violated(" \o CompleteWhy(Ev.bytes) \o ")" ELSE " ack-complete:ok")
        \o " failed-ops=" \o ToString(run.failedOps \cup FailedKinds(EvOps))
 
 Verdict ==
@@ -146,7 +151,9 @@ CallUpdate(closing) ==
        /\ stats' = [stats EXCEPT !.events = @ + 1, !.failed = IF Ev.st # 0 THEN @ + 1 ELSE @,
                                  !.sinkops = @ + t.n, !.drift = @ + t.drift,
                                  !.okcloses = IF closing /\ Ev.st = 0 /\ ~run.refRun THEN @ + 1 ELSE @,
-                                 !.spurious = IF Ev.st # 0 /\ ~Ev.sf THEN @ + 1 ELSE @]
+                                 !.spurious = IF Ev.st # 0 /\ ~Ev.sf THEN @ + 1 ELSE @,
+                                 !.parsedcloses = IF closing /\ Ev.st = 0 /\ ~run.refRun /\ Ev.bytes # ref THEN @ + 1 ELSE @,
+                                 !.undecidedcloses = IF closing /\ Ev.st = 0 /\ ~run.refRun /\ Completeness(Ev.bytes) = "undecided" THEN @ + 1 ELSE @]
 
 Apply ==
     CASE Ev.e = "Create" ->
@@ -155,27 +162,33 @@ Apply ==
             /\ impl' = [WSIdle EXCEPT !.owned = (Ev.kind = "p"), !.exists = (Ev.kind = "p"), !.handle = TRUE]
             /\ run' = [failedOps |-> {}, tracked |-> TRUE, refRun |-> ref = <<>>]
             /\ stats' = [stats EXCEPT !.events = @ + 1, !.runs = @ + 1]
+            /\ ack' = [c \in 1..Len(Ev.cols) |-> [defs |-> <<>>, vals |-> <<>>]]
             /\ UNCHANGED ref
-      [] Ev.e = "WriteBatch" -> AbsCall(WriteBatch(Ev.c + 1, Ev.n, Ev.withDefs, Ev.defs, Ev.vals)) /\ CallUpdate(FALSE) /\ UNCHANGED ref
-      [] Ev.e = "NewRowGroup" -> AbsCall(NewRowGroup) /\ CallUpdate(FALSE) /\ UNCHANGED ref
+      [] Ev.e = "WriteBatch" ->
+            /\ AbsCall(WriteBatch(Ev.c + 1, Ev.n, Ev.withDefs, Ev.defs, Ev.vals)) /\ CallUpdate(FALSE) /\ UNCHANGED ref
+            /\ ack' = IF Ev.st # 0 THEN ack
+                      ELSE [ack EXCEPT ![Ev.c + 1] = [defs |-> @.defs \o RowDefs(Ev.c + 1, Ev.n, Ev.withDefs, Ev.defs),
+                                                      vals |-> @.vals \o Ev.vals]]
+      [] Ev.e = "NewRowGroup" -> AbsCall(NewRowGroup) /\ CallUpdate(FALSE) /\ UNCHANGED <<ref, ack>>
       [] Ev.e = "Close" -> /\ AbsCall(Close) /\ CallUpdate(TRUE)
                            /\ ref' = IF run.refRun /\ Ev.st = 0 THEN Ev.bytes ELSE ref
+                           /\ UNCHANGED ack
       [] Ev.e = "Abort" -> /\ Abort
                            /\ LET t == Track(EvOps) IN sink' = t.s
                            /\ impl' = [impl EXCEPT !.handle = FALSE, !.exists = FALSE]
                            /\ stats' = [stats EXCEPT !.events = @ + 1, !.aborts = @ + 1]
-                           /\ UNCHANGED <<ref, run>>
+                           /\ UNCHANGED <<ref, run, ack>>
       [] Ev.e = "Prefixes" ->
             /\ stats' = [stats EXCEPT !.events = @ + 1, !.cuts = @ + Len(Ev.v), !.opened = @ + Len(Ev.opened),
                                       !.undecided = IF "prefix:undecided" \in PrefixVerdict THEN @ + 1 ELSE @]
-            /\ UNCHANGED <<wst, schema, cur, done, sink, impl, ref, run>>
-      [] OTHER -> UNCHANGED <<wst, schema, cur, done, sink, impl, ref, run, stats>>
+            /\ UNCHANGED <<wst, schema, cur, done, sink, impl, ref, run, ack>>
+      [] OTHER -> UNCHANGED <<wst, schema, cur, done, sink, impl, ref, run, stats, ack>>
 
 Stats0 == [execs |-> 0, runs |-> 0, events |-> 0, failed |-> 0, sinkops |-> 0, drift |-> 0, okcloses |-> 0,
-           spurious |-> 0, aborts |-> 0, cuts |-> 0, opened |-> 0, undecided |-> 0]
-TInit == WSInit /\ l = 1 /\ skip = FALSE /\ bad = <<>> /\ stats = Stats0 /\ ref = <<>> /\ run = NoRun
+           spurious |-> 0, parsedcloses |-> 0, undecidedcloses |-> 0, aborts |-> 0, cuts |-> 0, opened |-> 0, undecided |-> 0]
+TInit == WSInit /\ l = 1 /\ skip = FALSE /\ bad = <<>> /\ stats = Stats0 /\ ref = <<>> /\ run = NoRun /\ ack = <<>>
 
-Fresh == wst' = "none" /\ schema' = <<>> /\ cur' = <<>> /\ done' = <<>> /\ sink' = SkIdle /\ impl' = WSIdle /\ run' = NoRun
+Fresh == wst' = "none" /\ schema' = <<>> /\ cur' = <<>> /\ done' = <<>> /\ sink' = SkIdle /\ impl' = WSIdle /\ run' = NoRun /\ ack' = <<>>
 
 TReset == /\ l <= Len(Tr) /\ Ev.e = "Reset"
           /\ Fresh /\ ref' = <<>> /\ skip' = FALSE /\ l' = l + 1 /\ UNCHANGED bad
@@ -183,13 +196,13 @@ TReset == /\ l <= Len(Tr) /\ Ev.e = "Reset"
 TRerun == /\ l <= Len(Tr) /\ Ev.e = "Rerun"
           /\ Fresh /\ skip' = FALSE /\ l' = l + 1 /\ UNCHANGED <<bad, ref, stats>>
 TSkip == /\ l <= Len(Tr) /\ Ev.e \notin {"Reset", "Rerun"} /\ skip
-         /\ l' = l + 1 /\ UNCHANGED <<wst, schema, cur, done, sink, impl, skip, bad, stats, ref, run>>
+         /\ l' = l + 1 /\ UNCHANGED <<wst, schema, cur, done, sink, impl, skip, bad, stats, ref, run, ack>>
 TStep == /\ l <= Len(Tr) /\ Ev.e \notin {"Reset", "Rerun"} /\ ~skip
          /\ LET v == Verdict
             IN IF v = {} THEN Apply /\ UNCHANGED <<skip, bad>>
                ELSE /\ bad' = Append(bad, [l |-> l, id |-> Ev.id, e |-> Ev.e, why |-> v, detail |-> Detail,
                                             run |-> IF Has("run") THEN Ev.run ELSE ""])
-                    /\ skip' = TRUE /\ UNCHANGED <<wst, schema, cur, done, sink, impl, stats, ref, run>>
+                    /\ skip' = TRUE /\ UNCHANGED <<wst, schema, cur, done, sink, impl, stats, ref, run, ack>>
          /\ l' = l + 1
 
 TNext == TReset \/ TRerun \/ TSkip \/ TStep
